@@ -63,12 +63,10 @@ QUICK = [
     ("S0", V20, 4, "BUILD"),
     ("S2", V21, 2, "FULL"),
     ("S3", V20, 2, "EDIT"),
-    ("S3r", V21D, 2, "READD"),
     ("S1", V20D, 3, "HOLES"),
     ("S2r", V20, 2, "COPY"),
-    ("S4", V21, 2, "TABLES"),
-    ("S5", V20, 2, "TABLES"),
-    ("S6", V20, 2, "READD"),
+    ("S5", V21, 2, "TABLES"),
+    ("S6", V21D, 2, "READD"),
 ]
 THOROUGH = [
     ("S0", V20, 5, "BUILD"),
@@ -112,12 +110,15 @@ def _merge_crosscheck(seed_h, depth):
                 for op in r["succ"]:
                     nxt.append(dict(h, ops=h["ops"] + [op]))
         level = nxt
+    by_key_inner = {}
     for ops_s, r in results.items():
         ops = __import__("json").loads(ops_s)
-        kids = sorted(results[core.jdump(ops + [op])]["key"] for op in r["succ"] if core.jdump(ops + [op]) in results)
-        sig = core.jdump([sorted(f"{c}|{w}" for c, w, _ in r["viol"]), r["succ"], kids if len(ops) < depth else None])
+        sig = core.jdump([sorted(f"{c}|{w}" for c, w, _ in r["viol"]), r["succ"]])
         by_key.setdefault(r["key"], {}).setdefault(sig, ops)
-    bad = {k: v for k, v in by_key.items() if len(v) > 1}
+        if len(ops) < depth:  # successors were executed too: compare them as well
+            kids = sorted(results[core.jdump(ops + [op])]["key"] for op in r["succ"])
+            by_key_inner.setdefault(r["key"], {}).setdefault(core.jdump(kids), ops)
+    bad = {k: v for k, v in list(by_key.items()) + list(by_key_inner.items()) if len(v) > 1}
     if bad:
         k, v = next(iter(bad.items()))
         raise core.HarnessError(f"canonical key merges histories that behave differently: {list(v.values())[:2]}")
